@@ -10,12 +10,10 @@ package codegen
 //@   opt inline none
 //@   property C09
 //@   ensures* user.owned.file: result != nil ==> result.SkipExist
-//@   modifies all
 //@ func exampleServer
 //@   opt inline none
 //@   property C09
 //@   ensures* user.owned.file: result != nil ==> result.SkipExist
-//@   modifies all
 
 // "Gives every attribute the field number chosen in the design": the number written into the message
 // definition is the number design validation checked for uniqueness -- the value FieldTag reports (the last
